@@ -37,15 +37,15 @@ def classify(ctx, cfg, seg, idx, reason):
     ev = seg[idx]
     fault = reset.get("fault", {})
     flt_ops = [e for e in seg[1:idx + 1] if e.get("flt")]
-    fo = flt_ops[-1] if flt_ops else None     # the most recent faulted call before the rejected line
-    fdesc = "%s:%s" % (fo.get("op"), fo.get("res")) if fo else "none"
+    fo = flt_ops[-1] if flt_ops else None
+    # every faulted call before the rejected line (a burst has several): "call:res" and the lower calls actually hit
+    fdesc = "+".join("%s:%s" % (e.get("op"), e.get("res")) for e in flt_ops) or "none"
     if ev.get("ev") == "recover":
         what_ev = "recover/%s" % ev.get("res")
     else:
         what_ev = "%s/%s%s" % (ev.get("op"), ev.get("res"), "+flt" if ev.get("flt") else "")
-    # the lower call the fault actually hit (the planned k-th call can differ when perkeep fans out goroutines)
-    fcall = fo.get("fcall") if fo and fo.get("fcall") else "%s:%s" % (fault.get("call", "?"), fault.get("kind"))
-    fcall = re.sub(r"^r[/0-9]*\.?", "", fcall)
+    fcalls = [re.sub(r"^r[/0-9]*\.?", "", e.get("fcall")) for e in flt_ops if e.get("fcall")]
+    fcall = "+".join(fcalls) if fcalls else re.sub(r"^r[/0-9]*\.?", "", "%s:%s" % (fault.get("call", "?"), fault.get("kind")))
     sig = "C13/%s/fault@%s/%s/%s" % (cfg_class(cfg), fcall, fdesc, what_ev)
     replay = {"property": "C13", "cfg": cfg, "run": {"h": reset.get("h"), "k": fault.get("k"), "kind": fault.get("kind"), "call": fault.get("call")},
               "history": None, "segment": seg[:idx + 1][-40:], "reason": reason}
@@ -84,7 +84,7 @@ def sweep(ctx, drv, cfg, histfile, hists, seed, bursts):
         raise vlib.MachineryError("c13 driver failed on %s rc=%s: %s" % (cfg, rc, se[-2000:]))
     evs = vlib.read_ndjson(out) if os.path.exists(out) else []
     os.remove(out)
-    fails = ctx.tlc_trace_strict("Trace_BlobStoreFault", "Trace_BlobStoreFault.cfg", evs, lambda e: e.get("ev") == "reset", max_rounds=40)
+    fails = ctx.tlc_trace_segments("Trace_BlobStoreFault", "Trace_BlobStoreFault.cfg", evs, lambda e: e.get("ev") == "reset")
     for seg, idx, why in fails:
         sig, what, replay = classify(ctx, cfg, seg, idx, why)
         replay["history"] = hists[seg[0].get("h", 0)]
@@ -113,7 +113,7 @@ def run(ctx, replay):
                 return
             raise vlib.MachineryError(se[-1500:])
         evs = vlib.read_ndjson(out)
-        for seg, idx, why in ctx.tlc_trace_strict("Trace_BlobStoreFault", "Trace_BlobStoreFault.cfg", evs, lambda e: e.get("ev") == "reset"):
+        for seg, idx, why in ctx.tlc_trace_segments("Trace_BlobStoreFault", "Trace_BlobStoreFault.cfg", evs, lambda e: e.get("ev") == "reset"):
             sig, what, rpl = classify(ctx, rp["cfg"], seg, idx, why)
             rpl["history"] = rp["history"]
             ctx.discrepancy(sig, what, rpl)
